@@ -41,14 +41,14 @@ Self-check of the presenters: an independent reference reader (ref_read_quoted /
 the folding rules on the physical lines of the scalar) must recover the target from every presentation; a disagreement
 is a machinery failure (tie break), never blamed on the implementation.
 
-Recorded findings (known_findings_c04.jsonl; a case of a recorded class must fail exactly the recorded way, otherwise it
-is reported like any other case):
+Repaired findings (known_findings_c04.jsonl, status "fixed"; nothing is suppressed): the two classes that used to be
+recorded are ordinary cases now, and their witnesses are a dedicated regression stream (REGRESSION_DOCS, run first):
   plain-indented-document-marker        a line of a plain scalar that starts, after indentation, with `---` / `...` +
-                                        blank/break/end: saphyr ends the scalar there and rejects the document
-                                        (`a<LF> ---`, `k:<LF>  --- a`); c-forbidden only applies in column 0.
-  plain-flow-dash-before-flow-indicator in a flow collection, a plain scalar whose last word is a lone `-` directly
-                                        followed by `,` `]` `}` is rejected (`[a -]`); `-` is only restricted as the
-                                        FIRST character of a plain scalar.
+                                        blank/break/end is plain content (`a<LF> ---` is "a ---"); repaired by 263b504.
+  plain-flow-dash-before-flow-indicator in a flow collection a plain scalar whose last word is a lone `-` directly
+                                        followed by `,` `]` `}` is accepted (`[a -]` is ["a -"]); repaired by 0b5f0e0.
+A case of a class that is still recorded as "known" (none at present) must fail exactly the recorded way, otherwise it is
+reported like any other case.
 Cases are generated and run in batches of BATCH documents (the thorough tier has about 3 million).
 """
 import json
@@ -669,32 +669,45 @@ def load_known():
 
 # ------------------------------------------------------------------------------------------------
 # recorded finding classes: decidable predicates on the generated case, and what the implementation is then
-# required to do (anything else stays a violation)
+# required to do (anything else stays a violation).  No class is recorded at present: the two former ones were
+# repaired in /repo (263b504, 0b5f0e0) and are "fixed" entries of known_findings_c04.jsonl, which suppress nothing.
 # ------------------------------------------------------------------------------------------------
-INDENTED_MARKER = re.compile(r"(?m)^[ \t]+(---|\.\.\.)([ \t\n]|\Z)")
-
-
-def known_indented_marker(c):
-    """a plain scalar one of whose physical lines starts, after at least one blank of indentation, with `---` or `...`
-    followed by a blank, a break or the end of input (all other lines of the generated documents are fixed text)"""
-    return c["style"] == "P" and bool(INDENTED_MARKER.search(c["doc"].replace("\r\n", "\n").replace("\r", "\n")))
-
-
-def known_dash_before_flow_indicator(c):
-    """a plain scalar in a flow collection whose last word is a lone `-` (preceded by a blank or a fold) and which is
-    immediately followed by `,` `]` or `}`"""
-    t = c["text"]
-    return (c["style"] == "P" and c["flow"] and len(t) >= 2 and t[-1] == "-" and t[-2] in " \t\n"
-            and c["post"][:1] in (",", "]", "}"))
-
-
 KNOWN_PREDICATES = {
     # class -> (predicate on the case, required behaviour of the implementation for cases of the class)
-    "plain-indented-document-marker": (known_indented_marker,
-                                       lambda got, fin: fin.startswith("ERR@") and "unexpected end of plain scalar" in fin),
-    "plain-flow-dash-before-flow-indicator": (known_dash_before_flow_indicator,
-                                              lambda got, fin: fin.startswith("ERR@") and "plain scalar cannot start with '-'" in fin),
 }
+
+
+# ------------------------------------------------------------------------------------------------
+# regression stream: the witnesses of the repaired findings as fixed documents with their expected events
+# ------------------------------------------------------------------------------------------------
+def _reg(doc, expected, text, context, flow, src, post):
+    return dict(doc=doc, expected=["SS"] + expected + ["SE"], text=text, style="P", context="regression/" + context,
+                src=src, flow=flow, post=post, nbreaks=src.count("\n"))
+
+
+REGRESSION_DOCS = [
+    # 263b504: an indented `---` / `...` line is content of the plain scalar
+    _reg("a\n ---\n", ["DS", P("a ---"), "DE"], "a ---", "indented-marker", False, "a\n ---", "\n"),
+    _reg("k:\n  --- a\n", ["DS", "MS", P("k"), P("--- a"), "ME", "DE"], "--- a", "indented-marker", False, "--- a", "\n"),
+    _reg(" --- a: v\n", ["DS", "MS", P("--- a"), P("v"), "ME", "DE"], "--- a", "indented-marker", False, "--- a", ": v\n"),
+    _reg("k: a\n  ...\n", ["DS", "MS", P("k"), P("a ..."), "ME", "DE"], "a ...", "indented-marker", False, "a\n  ...", "\n"),
+    _reg("[\n ... ]\n", ["DS", "QS", P("..."), "QE", "DE"], "...", "indented-marker", True, "...", " ]\n"),
+    _reg("k: a\n  ---\n  b\n", ["DS", "MS", P("k"), P("a --- b"), "ME", "DE"], "a --- b", "indented-marker", False,
+         "a\n  ---\n  b", "\n"),
+    _reg("- a\n\n  ... b\n", ["DS", "QS", P("a\n... b"), "QE", "DE"], "a\n... b", "indented-marker", False,
+         "a\n\n  ... b", "\n"),
+    # 0b5f0e0: '-' before a flow indicator is refused only as the first character of the scalar
+    _reg("[a -]\n", ["DS", "QS", P("a -"), "QE", "DE"], "a -", "dash-before-flow-indicator", True, "a -", "]\n"),
+    _reg("{k: a -}\n", ["DS", "MS", P("k"), P("a -"), "ME", "DE"], "a -", "dash-before-flow-indicator", True, "a -", "}\n"),
+    _reg("[a\n  -, b]\n", ["DS", "QS", P("a -"), P("b"), "QE", "DE"], "a -", "dash-before-flow-indicator", True,
+         "a\n  -", ", b]\n"),
+    _reg("[a - -]\n", ["DS", "QS", P("a - -"), "QE", "DE"], "a - -", "dash-before-flow-indicator", True, "a - -", "]\n"),
+    _reg("[x, a\t-]\n", ["DS", "QS", P("x"), P("a\t-"), "QE", "DE"], "a\t-", "dash-before-flow-indicator", True, "a\t-", "]\n"),
+]
+# ... and what must still be refused / still ends the scalar (the repairs did not overshoot)
+REGRESSION_REJECTED = ["[-]\n", "[-, a]\n", "{-}\n", "[ -]\n"]
+REGRESSION_SPLIT = [("a\n---\n", ["SS", "DS", P("a"), "DE", "DS", ("SC", "P", "~"), "DE", "SE"]),
+                    ("a\n...\n", ["SS", "DS", P("a"), "DE", "SE"])]
 
 
 def targets(tier, rng):
@@ -729,6 +742,11 @@ def targets(tier, rng):
     return groups
 
 
+NOTES = ("theorems: T1/T2 full (escape tables, hexadecimal, resolve_escape); T3 the quoted character loop for all words "
+         "with escapes and all single-line quoted scalars; T4 plain scalars (see coq/Properties/C04.v); T5 multi-line "
+         "folding of quoted scalars (see coq/Properties/C04.v); CR / CRLF breaks, the buffered input and the syntactic "
+         "context above the scanner are covered by the differential run only; the two former findings are repaired "
+         "(263b504, 0b5f0e0) and run as a regression stream")
 STYLE_NAME = {"D": "double-quoted", "S": "single-quoted", "P": "plain"}
 BATCH = 150000
 
@@ -843,6 +861,41 @@ def run_batch(cases, res, ta, known):
                                        impl=impl["str"][i][-160:]))
 
 
+def run_regression_negative(res, ta):
+    """the other side of the two repairs: '-' + flow indicator as the FIRST character is still refused, a marker in
+    column 0 still ends the scalar (both back-ends; the model must agree)"""
+    if not (res.harness_ok and res.model_ok):
+        return
+    docs = REGRESSION_REJECTED + [d for d, _ in REGRESSION_SPLIT]
+    lines = [enc(d) for d in docs]
+    impl = {b: run_hx(["events", b], lines) for b in ("str", "iter")}
+    model = run_mx(["events", "str"], lines)
+    for i, d in enumerate(docs):
+        res.evaluations += 1
+        ta.ndocs += 1
+        ta.ctx["regression/negative"] += 1
+        for b in ("str", "iter"):
+            got, fin = project(impl[b][i])
+            if i < len(REGRESSION_REJECTED):
+                good = fin.startswith("ERR@") and "plain scalar cannot start with '-'" in fin
+                what = "a plain scalar starting with '-' + flow indicator must be refused"
+            else:
+                good = fin == "OK" and got == REGRESSION_SPLIT[i - len(REGRESSION_REJECTED)][1]
+                what = "a document marker in column 0 must end the plain scalar"
+            if good:
+                ta.outcome["ok"] += 1
+            else:
+                ta.outcome["bad"] += 1
+                res.add_violation("regression stream (back-end %s): %s" % (b, what),
+                                  dict(input=d, codepoints=lines[i], backend=b), impl=impl[b][i][-500:])
+        me, mf = split_line(model[i])
+        ie, if_ = split_line(impl["str"][i])
+        if me != ie or fin_pos(mf) != fin_pos(if_):
+            ta.outcome["model-mismatch"] += 1
+            res.add_tie_break("correspondence: model pipeline != implementation (events with spans, verdict)", case=d,
+                              model=model[i][-400:], impl=impl["str"][i][-400:])
+
+
 def check_C04(tier, seed):
     res = Result(PID, tier, seed)
     proof = prepare(PID, res)
@@ -853,6 +906,8 @@ def check_C04(tier, seed):
     if coq_spec_tables() != presenter_tables():
         res.add_tie_break("the presenter's escape tables differ from coq/Spec/FlowFold.v (spec_named_escapes / spec_numeric_escapes)",
                           coq=coq_spec_tables(), python=presenter_tables())
+    run_batch([dict(c) for c in REGRESSION_DOCS], res, ta, known)
+    run_regression_negative(res, ta)
     seen, docs_seen, dist = set(), set(), {}
     batch = []
     ntargets = 0
@@ -891,9 +946,7 @@ def check_C04(tier, seed):
         res.coverage["coqchk"] = "ok" if ok else "FAILED"
         if not ok:
             res.add_tie_break("coqchk rejects the compiled proofs", error=out[-1500:])
-    res.notes.append("theorems: T1/T2 full (escape tables, hexadecimal, resolve_escape); T3 partial (all words, all words with "
-                     "escapes, all single-line escape-free quoted scalars); multi-line folding and plain scalars are covered by the "
-                     "differential run only; C04_plain_full is refuted (known finding plain-indented-document-marker)")
+    res.notes.append(NOTES)
     rule = ("targets: every string of length <= %d over the %d-symbol tricky alphabet, every plain-presentable string of length <= 5 "
             "(quick) / 6 (thorough) over the 8-symbol plain alphabet, a word list, random strings of length 4-24 "
             "and long strings around the 128-character chunk boundary; each presented 2-3 times per style (double, single, plain "
